@@ -411,7 +411,10 @@ class Drv:
                 mo = o
                 if mo.startswith("rej:"):      # the reason is informative only
                     mo = "rej" + (mo[mo.index(" |"):] if " |" in mo else "")
-                if impl.startswith("dec "):    # decision + validation state only (Part B)
+                if impl.startswith("dec* "):   # validation state only: the decision token is not compared (known-gap calls, see check_injection)
+                    mo = "*" + mo[mo.index(" |"):]
+                    impl = "*" + impl[impl.index(" |"):]
+                elif impl.startswith("dec "):    # decision + validation state only (Part B)
                     mo = ("ok" if mo.startswith("ok") else "rej") + mo[mo.index(" |"):]
                     impl = impl[4:]
                 if mo != impl:
@@ -667,7 +670,9 @@ def check_injection(ctx, drv, spec, calls, twin, bad_kind, bad, pos, case_seed, 
         ctx.count("B:known-gap:" + name)
         # (the frame got past validation; HDDDM/CDBD(detect_batch=1) may still refuse it afterwards -- a 2-row reference cannot be
         # split, known finding of C07 -- with the width / names already recorded: the model says the same)
-        drv.add(model_lines(spec, seq[:pos + 1]), [None] + impl_dec[:pos] + [("dec ok | " if ec == "none" else "dec rej | ") + st_after])
+        # is raised by a later layer than validation, which the validation model does not see (`update`), or is the model's own
+        # row rule (`set_reference` of a 2-row frame): only the recorded width / names are compared for this call
+        drv.add(model_lines(spec, seq[:pos + 1]), [None] + impl_dec[:pos] + ["dec* x | " + st_after])
         return
     if ec == "none":
         report(ctx, signature={"class": "malformed-accepted", "detector": name, "kind": bad_kind},
